@@ -14,24 +14,29 @@ theorem mem_keys {e : Ensemble} {k : Key} : k ∈ e.keys ↔ ∃ i, (k, i) ∈ e
     exact List.mem_map.mpr ⟨(k, i), hi, rfl⟩
 
 theorem terminate_watchers {e : Ensemble} {ins : Insights} {t : Key × Nat} :
-    t ∈ (terminate e ins).watchers ↔ t ∈ e.watchers ∧ remaining ins t.1 = true := by
+    t ∈ (terminate e ins).watchers ↔ t ∈ e.watchers ∧ remaining ins t.1 = true ∧ t.2 ∉ e.dead := by
   simp [terminate, List.mem_filter]
 
 theorem terminate_keys {e : Ensemble} {ins : Insights} {k : Key} :
-    k ∈ (terminate e ins).keys ↔ k ∈ e.keys ∧ remaining ins k = true := by
-  rw [mem_keys, mem_keys]
+    k ∈ (terminate e ins).keys ↔ Live e k ∧ remaining ins k = true := by
+  rw [mem_keys]
+  unfold Live
   constructor
   · rintro ⟨i, hi⟩
     have := terminate_watchers.mp hi
-    exact ⟨⟨i, this.1⟩, this.2⟩
-  · rintro ⟨⟨i, hi⟩, hr⟩
-    exact ⟨i, terminate_watchers.mpr ⟨hi, hr⟩⟩
+    exact ⟨⟨i, this.1, this.2.2⟩, this.2.1⟩
+  · rintro ⟨⟨i, hi, hd⟩, hr⟩
+    exact ⟨i, terminate_watchers.mpr ⟨hi, hr, hd⟩⟩
+
+theorem live_mem_keys {e : Ensemble} {k : Key} (h : Live e k) : k ∈ e.keys := by
+  obtain ⟨i, hi, _⟩ := h
+  exact mem_keys.mpr ⟨i, hi⟩
 
 theorem spawnOne_pos {e : Ensemble} {p : Res × Ns} (h : dkey p.1 p.2 ∈ e.keys) : spawnOne e p = e := by
   simp [spawnOne, h]
 
 theorem spawnOne_neg {e : Ensemble} {p : Res × Ns} (h : dkey p.1 p.2 ∉ e.keys) :
-    spawnOne e p = { watchers := e.watchers ++ [(dkey p.1 p.2, e.next)], next := e.next + 1 } := by
+    spawnOne e p = { e with watchers := e.watchers ++ [(dkey p.1 p.2, e.next)], next := e.next + 1 } := by
   simp [spawnOne, h]
 
 theorem spawnOne_watchers {e : Ensemble} {p : Res × Ns} {t : Key × Nat} :
@@ -163,6 +168,15 @@ theorem terminate_nodup {e : Ensemble} (h : e.keys.Nodup) (ins : Insights) : (te
   simp only
   exact (List.filter_sublist.map _).nodup h
 
+theorem kill_watchers (e : Ensemble) (k : Key) : (kill e k).watchers = e.watchers := by
+  unfold kill; split <;> rfl
+
+theorem kill_keys (e : Ensemble) (k : Key) : (kill e k).keys = e.keys := by
+  unfold Ensemble.keys; rw [kill_watchers]
+
+theorem kill_next (e : Ensemble) (k : Key) : (kill e k).next = e.next := by
+  unfold kill; split <;> rfl
+
 theorem adjust_nodup {e : Ensemble} (h : e.keys.Nodup) (ins : Insights) : (adjust e ins).keys.Nodup :=
   spawn_nodup (terminate_nodup h ins)
 
@@ -179,23 +193,130 @@ theorem runHist_append (e : Ensemble) (pre : List Insights) (last : Insights) :
 
 /-- one step, as sets of keys -/
 theorem adjust_keys_iff {e : Ensemble} {ins : Insights} {k : Key} :
-    k ∈ (adjust e ins).keys ↔ (k ∈ e.keys ∧ remaining ins k = true) ∨ Target ins k := by
+    k ∈ (adjust e ins).keys ↔ (Live e k ∧ remaining ins k = true) ∨ Target ins k := by
   unfold adjust
   rw [spawn_keys, terminate_keys, target_iff]
 
-/-- every key ever present was the target of some earlier insight revision -/
-theorem origin {hist : List Insights} {e : Ensemble} (he : ∀ k ∈ e.keys, ∃ ins ∈ hist0, Target ins k)
-    : ∀ k ∈ (runHist e hist).keys, ∃ ins ∈ hist0 ++ hist, Target ins k := by
-  induction hist generalizing e hist0 with
-  | nil => simpa [runHist] using he
+theorem runEvs_append (e : Ensemble) (pre : List Ev) (last : Insights) :
+    runEvs e (pre ++ [.pass last]) = adjust (runEvs e pre) last := by
+  induction pre generalizing e with
+  | nil => rfl
+  | cons x xs ih => cases x <;> exact ih _
+
+theorem runEvs_nodup {evs : List Ev} {e : Ensemble} (h : e.keys.Nodup) : (runEvs e evs).keys.Nodup := by
+  induction evs generalizing e with
+  | nil => exact h
   | cons x xs ih =>
-      intro k hk
-      have := @ih (hist0 ++ [x]) (adjust e x) (by
-        intro k hk
-        rcases adjust_keys_iff.mp hk with ⟨h, _⟩ | h
-        · obtain ⟨ins, hi, ht⟩ := he k h
-          exact ⟨ins, List.mem_append_left _ hi, ht⟩
-        · exact ⟨x, by simp, h⟩) k hk
-      simpa using this
+      cases x with
+      | pass ins => exact ih (adjust_nodup h ins)
+      | die k => exact ih (by rw [kill_keys]; exact h)
+
+/-- every key ever present was the target of some earlier insight revision -/
+theorem origin {evs : List Ev} {e : Ensemble} {hist0 : List Insights}
+    (he : ∀ k ∈ e.keys, ∃ ins ∈ hist0, Target ins k) :
+    ∀ k ∈ (runEvs e evs).keys, ∃ ins ∈ hist0 ++ evs.flatMap Ev.insights, Target ins k := by
+  induction evs generalizing e hist0 with
+  | nil => simpa [runEvs] using he
+  | cons x xs ih =>
+      cases x with
+      | pass x =>
+          intro k hk
+          have := @ih (adjust e x) (hist0 ++ [x]) (by
+            intro k hk
+            rcases adjust_keys_iff.mp hk with ⟨h, _⟩ | h
+            · obtain ⟨ins, hi, ht⟩ := he k (live_mem_keys h)
+              exact ⟨ins, List.mem_append_left _ hi, ht⟩
+            · exact ⟨x, by simp, h⟩) k hk
+          simpa [Ev.insights, List.flatMap_cons] using this
+      | die d =>
+          intro k hk
+          have := @ih (kill e d) hist0 (by rw [kill_keys]; exact he) k hk
+          simpa [Ev.insights, List.flatMap_cons] using this
+
+theorem runHist_eq_runEvs (e : Ensemble) (h : List Insights) : runHist e h = runEvs e (h.map Ev.pass) := by
+  induction h generalizing e with
+  | nil => rfl
+  | cons x xs ih => exact ih _
+
+theorem flatMap_insights_map_pass (h : List Insights) : (h.map Ev.pass).flatMap Ev.insights = h := by
+  induction h with
+  | nil => rfl
+  | cons x xs ih => simp [List.flatMap_cons, Ev.insights, ih]
+
+/-! ### live tasks -/
+
+/-- spawn numbers in use, and the numbers of dead tasks, are below `next` -/
+def Below (e : Ensemble) : Prop := (∀ t ∈ e.watchers, t.2 < e.next) ∧ (∀ d ∈ e.dead, d < e.next)
+
+theorem below_empty : Below Ens.empty := by simp [Below, Ens.empty]
+
+theorem below_kill {e : Ensemble} (h : Below e) (k : Key) : Below (kill e k) := by
+  unfold kill
+  split
+  · rename_i t ht
+    have hm := List.mem_of_find?_eq_some ht
+    refine ⟨h.1, ?_⟩
+    intro d hd
+    rcases List.mem_cons.mp hd with rfl | hd
+    · exact h.1 t hm
+    · exact h.2 d hd
+  · exact h
+
+theorem below_terminate {e : Ensemble} (h : Below e) (ins : Insights) : Below (terminate e ins) :=
+  ⟨fun t ht => h.1 t (terminate_watchers.mp ht).1, h.2⟩
+
+theorem below_spawnOne {e : Ensemble} (h : Below e) (p : Res × Ns) : Below (spawnOne e p) := by
+  by_cases h' : dkey p.1 p.2 ∈ e.keys
+  · rw [spawnOne_pos h']; exact h
+  · rw [spawnOne_neg h']
+    refine ⟨?_, ?_⟩
+    · intro t ht
+      rcases List.mem_append.mp ht with ht | ht
+      · exact Nat.lt_succ_of_lt (h.1 t ht)
+      · simp at ht; subst ht; exact Nat.lt_succ_self _
+    · intro d hd; exact Nat.lt_succ_of_lt (h.2 d hd)
+
+theorem below_spawn {ps : List (Res × Ns)} {e : Ensemble} (h : Below e) : Below (spawn e ps) := by
+  unfold spawn
+  induction ps generalizing e with
+  | nil => exact h
+  | cons p ps ih => rw [List.foldl_cons]; exact ih (below_spawnOne h p)
+
+theorem below_adjust {e : Ensemble} (h : Below e) (ins : Insights) : Below (adjust e ins) :=
+  below_spawn (below_terminate h ins)
+
+theorem below_runEvs {evs : List Ev} {e : Ensemble} (h : Below e) : Below (runEvs e evs) := by
+  induction evs generalizing e with
+  | nil => exact h
+  | cons x xs ih =>
+      cases x with
+      | pass ins => exact ih (below_adjust h ins)
+      | die k => exact ih (below_kill h k)
+
+theorem spawnOne_dead (e : Ensemble) (p : Res × Ns) : (spawnOne e p).dead = e.dead := by
+  by_cases h' : dkey p.1 p.2 ∈ e.keys
+  · rw [spawnOne_pos h']
+  · rw [spawnOne_neg h']
+
+theorem spawn_dead {ps : List (Res × Ns)} {e : Ensemble} : (spawn e ps).dead = e.dead := by
+  unfold spawn
+  induction ps generalizing e with
+  | nil => rfl
+  | cons p ps ih => rw [List.foldl_cons, ih, spawnOne_dead]
+
+/-- right after a pass every task in the ensemble is running -/
+theorem adjust_all_live {e : Ensemble} (h : Below e) (ins : Insights) :
+    ∀ t ∈ (adjust e ins).watchers, t.2 ∉ (adjust e ins).dead := by
+  intro t ht
+  unfold adjust at ht ⊢
+  rw [spawn_dead]
+  have hd : (terminate e ins).dead = e.dead := rfl
+  rw [hd]
+  rcases (@spawn_watchers (pairs ins) (terminate e ins)).2 t ht with h1 | h1
+  · exact (terminate_watchers.mp h1).2.2
+  · intro hmem
+    have := h.2 t.2 hmem
+    have hn : (terminate e ins).next = e.next := rfl
+    omega
 
 end Kopf.C19.Ens
